@@ -266,14 +266,16 @@ fn gen_case(rng: &mut Rng, root: &str) -> ImportCase {
     let directive = *rng.pick(&["import", "import", "use", "use", "forward", "load-css"]);
     // URL
     let name = *rng.pick(&["foo", "foo", "bar", "foo.bar", "x.y.z", "lib"]);
-    let prefix = *rng.pick(&["", "", "", "sub/", "../", "./", "sub/../"]);
+    // (`../../` leaves the directory of an importer at the root by two levels: legal, and the
+    // shape on which hand-written path normalisation goes wrong)
+    let prefix = *rng.pick(&["", "", "", "", "sub/", "../", "./", "sub/../", "../../", "sub/../../"]);
     let mut suffix = *rng.pick(&["", "", "", "", ".scss", ".sass", ".css"]);
     if directive == "import" && suffix == ".css" {
         suffix = ""; // `@import "x.css"` is a plain-CSS import, tested separately
     }
     let url = format!("{}{}{}", prefix, name, suffix);
     // load paths
-    let lp_pool = ["lp1", "lp2", "lp1/inner", "a"];
+    let lp_pool = ["lp1", "lp2", "lp1/inner", "a", "lp1/../lp2", "./lp1", "lp2/"];
     let nlp = rng.below(4) as usize;
     #[allow(unused_mut)]
     let mut lps: Vec<String> = vec![];
